@@ -91,6 +91,21 @@ Proof. exact (find_proxy_meets_reference ob_shexp_rewrites ob_shexp_anchored ob_
                                          ob_my_ip_default ob_client_version ob_result_checks ob_entry_both_is_error). Qed.
 Print Assumptions T14_script_meets_reference.
 
+(* What the script declares itself follows the standard rules: its own function under a helper's name is the one its
+   entry point calls, the helpers are there while the script body is loaded, a const/let of a JavaScript helper's
+   name is an error of the script (never a panic) — for every scope description, tree, URL and host *)
+Theorem T14_script_scope : forall sc e url host t,
+  env_quads e ->
+  (eval_tree (spec_scoped_call sc e) url host t = OutsideModel \/
+   eval_tree (scoped_call sc (call_helper e)) url host t = eval_tree (spec_scoped_call sc e) url host t) /\
+  scope_creation sc t <> CreationPanic /\
+  (scope_creation sc t = Created <-> spec_creation_fails sc = false).
+Proof. exact (fun sc e url host t He => conj
+  (scoped_script_meets ob_shexp_rewrites ob_shexp_anchored ob_ip_octet_max ob_convert_shape ob_my_ip_default ob_client_version
+                       ob_library_before_script sc e url host t He)
+  (creation_meets ob_library_before_script sc t)). Qed.
+Print Assumptions T14_script_scope.
+
 (* sortIpAddressList: a permutation of its entries, IPv6 first, each family ascending *)
 Theorem T14_sort_is_sorted_perm : forall l,
   Permutation l (sort_ips l) /\ sorted_by ip_le (map fst (sort_ips l)) = true.
